@@ -19,7 +19,7 @@
 //   E
 // Tokens: g gs f | a<q>.<x> p<q> tp<q> u ra<q> | lk<l> tl<l> ul | c:<kind>:<v>
 #include "VerifHooks.hpp"
-#include "verif_access.hpp"
+#include "VerifAccess.hpp"
 
 #include <atomic>
 #include <condition_variable>
